@@ -100,6 +100,9 @@ func (ex *Exec) markShared(roots []Value) {
 	sh.on = true
 }
 
+// markSharedValues adds the heap reachable from vals to the current shared set.
+func (ex *Exec) markSharedValues(vals []Value) { ex.markShared(vals) }
+
 // responsible returns the innermost library function on the stack, or "" if the write is made
 // by a world-model component or the harness itself.
 func responsible(fr *frame) string {
@@ -139,6 +142,9 @@ func (ex *Exec) noteSharedWrite(fr *frame, what string) {
 	}
 	if os.Getenv("GOSYM_DEBUG_SHARED") != "" {
 		fmt.Fprintf(os.Stderr, "shared write: %s | stack: %s\n", what, callerChain(fr))
+	}
+	if ex.inGo > 0 {
+		what += " (from a goroutine the library started, concurrently with the request goroutine)"
 	}
 	ex.shared.writes = appendUniq(ex.shared.writes, who+" writes "+what)
 }
@@ -290,4 +296,37 @@ func registerDefaultsBoundary(p *Program) {
 		return nil
 	}
 	I["net/smtp.SendMail"] = func(ex *Exec, fr *frame, fn *ssa.Function, a []Value) Value { return nilError }
+}
+
+// enterGoroutine marks the heap reachable from a new goroutine's function value and arguments
+// as shared for the duration of the goroutine's (synchronous) execution.
+func (ex *Exec) enterGoroutine(fnv Value, args []Value) func() {
+	if ex.shared == nil || !ex.shared.on {
+		return func() {}
+	}
+	old := ex.shared
+	ns := &sharedState{on: true, cells: map[*Cell]bool{}, maps: map[*Map]bool{}, arrs: map[*Array]bool{}, bytes: map[*ByteArr]bool{}, objs: map[*Opaque]bool{}, writes: old.writes}
+	for k := range old.cells {
+		ns.cells[k] = true
+	}
+	for k := range old.maps {
+		ns.maps[k] = true
+	}
+	for k := range old.arrs {
+		ns.arrs[k] = true
+	}
+	for k := range old.bytes {
+		ns.bytes[k] = true
+	}
+	for k := range old.objs {
+		ns.objs[k] = true
+	}
+	ex.shared = ns
+	ex.markSharedValues(append([]Value{fnv}, args...))
+	ex.inGo++
+	return func() {
+		ex.inGo--
+		old.writes = ns.writes
+		ex.shared = old
+	}
 }
